@@ -227,6 +227,7 @@ def run(ctx, rep):
     # whatever the state of that block (CHG / REP blocks of a file recorded by an interrupted sync can be recovered too)
     stripe_selection_rule(P, rep, 'R-C05-9')
     buffer_slot_rule(P, rep, 'R-C05-10')
+    deleted_forgotten_rule(P, rep, 'R-C05-12')
     from .C18 import nofollow_probe_rule
     nofollow_probe_rule(P, rep, 'R-C05-11', ('state_check_process',), 'check / fix of recorded empty files, hardlinks and directories', forbidden={'stat', 'stat64', 'access'})
 
@@ -477,3 +478,28 @@ def state_case_entries(f, k):
             if ci is not None and ci.op == 'icmp' and ci.pred in ('eq', 'ne') and f.const_of(ci.ops[1]) == k and is_state(ci.ops[0]):
                 out.append(t.ops[2][1] if ci.pred == 'eq' else t.ops[1][1])
     return list(dict.fromkeys(out))
+
+
+def deleted_forgotten_rule(P, rep, rid):
+    """scan gives the block of a new file the ZERO past hash when it lands on an EMPTY position ("the parity holds zeros there"), and
+    repair() trusts that: a rebuilt block that is not all zeros is taken for the new data.  A position becomes EMPTY again when the
+    save drops its DELETED blocks (fs_position_clear_deleted) -- done for every position without a file, although sync never
+    recomputes the parity of a stripe that has no file: the parity there still holds the deleted data.  Necessary condition decided
+    here: DELETED blocks are dropped at save only under evidence that the parity of the position was rewritten (any guard beyond
+    "no file uses this position")."""
+    from ..guards import guards_of
+    f = P.fn('state_write_content')
+    rep.analysed(f)
+    rep.rule(rid, 'state_write_content: DELETED blocks are forgotten (fs_position_clear_deleted) only for positions whose parity was rewritten, not merely because no file uses the position', 1)
+    cs = list(f.calls('fs_position_clear_deleted'))
+    if not cs:
+        rep.check(True, rid, 'state_write_content keeps DELETED blocks', f.file, 'no fs_position_clear_deleted on the save path', function='state_write_content', construct='deleted blocks forgotten')
+        return
+    for c in cs:
+        h_ = f.loop_of(c.block)
+        bound = f.xexpr(f.term(h_).ops[0]) if h_ is not None and f.term(h_).op == 'br' and len(f.term(h_).ops) == 3 else None
+        gs = [(a, p) for a, p in guards_of(f, c, expand=True) if a != bound]
+        only_unused = bool(gs) and all('fs_position_is_required' in a for a, p in gs)
+        rep.check(not only_unused, rid, 'state_write_content: fs_position_clear_deleted at line %s' % c.line, c.loc(),
+                  'guards: %s' % gs if not only_unused else 'guarded only by %s: the DELETED blocks of a stripe that holds no file are dropped although sync never recomputed its parity; the next file placed there is recorded with the ZERO past hash, and when it is lost before being synced fix "recovers" it with the bytes of the deleted file (exit 0)' % [a for a, p in gs],
+                  function='state_write_content', construct='deleted blocks forgotten')
